@@ -11,11 +11,18 @@ CHECKS = {
                  "every clause is discharged by z3 for all inputs; counterexamples are replayed on the real code.",
          "note": _NOTE + "The statistics clauses of fill/fill_n/construction are bounded (array extents fixed) and reported separately."},
 }
-CHECKS["C01"] = {"category": "other", "technique": "contract-based VC generation from the real AST, z3; bounded array extents (labelled bounded, not proved)",
-   "text": "The ensures clauses of h1 are taken from the property statement (per-bin weight sums, squared errors, under/overflow accounting, NaN "
-           "markers for gapped bins). The real source of h1 and everything it calls is executed symbolically for every path with symbolic values, weights "
-           "and edges; array extents are fixed per configuration (data length <= 3, bins <= 3), so these obligations are a bounded stand-in, never counted as proved.",
-   "note": _NOTE + "Bounded: extents fixed (n<=3 values, m<=3 bins). argsort/searchsorted are assumed contracts (permutation + sortedness; counting)."}
+CHECKS["C01"] = {"category": "proof", "technique": "contract-based deductive verification: VCs from the real AST, loop cut at a sidecar invariant, inductive lemmas proved per run, z3 (+ Lean for one lemma)",
+   "text": "Unbounded (data length and bin count are symbolic integers, arrays are z3 array terms): the facade h1 end to end -- extract_1d_array, extract_weights, calculate_1d_bins, "
+           "calculate_1d_frequencies, Histogram1D.__init__ interpreted in place -- for a 1-D array of finite floats of ANY length, a binning object with ANY number of rising bins "
+           "(gaps allowed), weights absent / int / float (>= 0), dropna on/off, keep_missed on/off; and calculate_1d_frequencies itself for weights of any sign, sorted or unsorted data. "
+           "Clauses taken from the property statement: every bin holds exactly the weight of the entries inside it (last bin closed), squared errors likewise, underflow/overflow are the "
+           "weight below/above for consecutive bins and NaN otherwise, contents + underflow + overflow = total input weight, inputs untouched. The per-bin loop is cut at an invariant "
+           "(inv-entry / inv-step obligations); the facts about sums over sorted slices, adjacent intervals, partitions and sums over bins are lemmas proved by an explicit induction scheme on "
+           "every run (lemma-base / lemma-step obligations, plus deliberately wrong lemmas that must be rejected). Bounded (extents <= 3, contents symbolic; reported under coverage.bounded): "
+           "NaN dropping with weights, multi-dimensional / transposed inputs, bins given as edges or method names, dtype requests, the helper predicates.",
+   "note": _NOTE + "ASSUMED: np.argsort returns a sorting permutation; np.searchsorted returns the insertion point of a SORTED array (sortedness is an obligation at every call); "
+           "the permutation lemma (a weighted count is invariant under re-indexing by a permutation) is assumed by z3 and proved in /verif/lean/PermSum.lean, checked by Lean in the "
+           "thorough tier -- the transcription between the two statements is trusted; the induction principle over the naturals is trusted; floats are reals. Bounded: see text."}
 _B = "contract-based VC generation from the real AST, z3; array extents bounded (labelled bounded, never counted as proved)"
 _BT = ("Ensures/raises clauses taken from the property statement are attached to the real functions; the real source (and everything it calls, "
        "interpreted in place) is executed symbolically on every path with symbolic contents, edges, weights and scalars; every clause is discharged by z3 "
